@@ -125,6 +125,8 @@ fn sel_obs(sel: &AttributeSelector) -> Vec<((u16, u16), Option<u32>)> {
 // string enumeration
 const SYMS: [&str; 14] = ["7", "c", "E", "g", "(", ")", ",", ".", "[", "]", " ", "\u{e9}", "\u{20ac}", "\u{1F600}"];
 const SYMS_REDUCED: [&str; 7] = ["7", "c", "g", "(", ")", ",", "\u{e9}"];
+/// the full alphabet without the four symbols that only matter to selectors
+const SYMS_TAG10: [&str; 10] = ["7", "c", "E", "g", "(", ")", ",", "\u{e9}", "\u{20ac}", "\u{1F600}"];
 
 /// One exhaustive string family: every string `start ++ w`, w over `syms`, byte length <= max;
 /// only strings of byte length >= eval_min are evaluated (shorter ones belong to another family).
@@ -256,6 +258,56 @@ fn prefixes(fam: &Fam, k: usize) -> Vec<Vec<u8>> {
     out
 }
 
+/// Near misses of the accepted forms: every string obtained from a well-formed tag text (each of the three
+/// forms, two hex patterns) by at most two non-overlapping symbol substitutions that keep the byte length
+/// (a k-byte scalar replaces k bytes), by one insertion of any symbol, or by one byte deletion — over the
+/// full 14-symbol alphabet. This puts every separator/parenthesis/digit position of the 9- and 11-byte
+/// forms under the full alphabet, which the length-bounded enumeration reaches only up to `full_max`.
+fn edit_family() -> Vec<Vec<u8>> {
+    let mut set = std::collections::BTreeSet::new();
+    for form in 0..3u8 {
+        for (g, e, case) in [(0x7C7Eu16, 0xE77Cu16, 2u8), (0x0010, 0xFFFF, 0)] {
+            let t = tag_text(g, e, form, case).into_bytes();
+            let n = t.len();
+            set.insert(t.clone());
+            for p1 in 0..n {
+                for s1 in SYMS.iter() {
+                    if p1 + s1.len() > n {
+                        continue;
+                    }
+                    let mut a = t.clone();
+                    a[p1..p1 + s1.len()].copy_from_slice(s1.as_bytes());
+                    set.insert(a.clone());
+                    for p2 in p1 + s1.len()..n {
+                        for s2 in SYMS.iter() {
+                            if p2 + s2.len() > n {
+                                continue;
+                            }
+                            let mut b = a.clone();
+                            b[p2..p2 + s2.len()].copy_from_slice(s2.as_bytes());
+                            set.insert(b);
+                        }
+                    }
+                }
+            }
+            for p in 0..=n {
+                for s1 in SYMS.iter() {
+                    let mut a = t[..p].to_vec();
+                    a.extend_from_slice(s1.as_bytes());
+                    a.extend_from_slice(&t[p..]);
+                    set.insert(a);
+                }
+            }
+            for p in 0..n {
+                let mut a = t.clone();
+                a.remove(p);
+                set.insert(a);
+            }
+        }
+    }
+    set.into_iter().collect()
+}
+
 const SHARD_SYMS: usize = 3;
 
 fn run_family(check: &Check, fam: &Fam, kw: &(dyn Fn(&str) -> Option<(u16, u16)> + Sync)) {
@@ -298,14 +350,15 @@ fn run_family(check: &Check, fam: &Fam, kw: &(dyn Fn(&str) -> Option<(u16, u16)>
 }
 
 fn main() {
+    vx_core::quiet_error_backtraces();
     let check = Check::from_args("C14", Level::Exploration);
     let dict = DictRef::load();
-    // full 14-symbol alphabet up to full_max bytes; 11-byte strings starting with '(' over the full
-    // alphabet (thorough); every other string up to 11 bytes over the reduced 7-symbol alphabet
+    // full 14-symbol alphabet up to full_max bytes; the longer strings (up to the 11 bytes of the longest
+    // accepted form) over the 7-symbol alphabet (quick) / the 10 symbols that matter to tags (thorough)
     let full_max: usize = std::env::var("VERIF_C14_FULLMAX").ok().and_then(|s| s.parse().ok()).unwrap_or(check.pick(8, 10));
-    let paren11 = check.thorough();
+    let wide_long = check.thorough();
     let sel_str_max: usize = check.pick(6, 7);
-    check.set_rule(&format!("tag family: boundary set = all 65 536 groups x elements {{0000,0010,00FF,1000,FFFF,=group}} and all 65 536 elements x the same groups, each in 3 forms x 3 hex cases through Tag::from_str and parse_tag, plus Display round trip; thorough adds all 2^32 tags in the Display form and the two other forms (upper case). str family: every string over the 14 symbols {{'7','c','E','g','(',')',',','.','[',']',' ', U+00E9, U+20AC, U+1F600}} of byte length <= {full_max}{} through Tag::from_str against a byte-level recogniser of the three forms (and <= {sel_str_max} bytes through parse_selector against a recogniser of the documented selector syntax), plus every string of byte length {}..11 over the reduced alphabet {{'7','c','g','(',')',',', U+00E9}}. sel family: all selectors of depth <= {} over 4 tags (standard with keyword, repeating-group keyword, private, unknown) x item indices {{0,1,10,4294967295}}, printed by Display and in every alternative spelling (3 tag forms, keyword, omitted [0]). kw family: every table keyword as single step, as nested step with index and as leaf under a nested step. A case is one string; distinct by its bytes; non-trivial = the parser ran on it", if paren11 { " (and every 11-byte string starting with '(' over the same alphabet)" } else { "" }, full_max + 1, check.pick(3, 4)));
+    check.set_rule(&format!("tag family: boundary set = all 65 536 groups x elements {{0000,0010,00FF,1000,FFFF,=group}} and all 65 536 elements x the same groups, each in 3 forms x 3 hex cases through Tag::from_str and parse_tag, plus Display round trip; thorough adds all 2^32 tags in the Display form and the two other forms (upper case). str family: every string over the 14 symbols {{'7','c','E','g','(',')',',','.','[',']',' ', U+00E9, U+20AC, U+1F600}} of byte length <= {full_max} through Tag::from_str against a byte-level recogniser of the three forms (and <= {sel_str_max} bytes through parse_selector against a recogniser of the documented selector syntax), plus every string of byte length {}..11 over {}. sel family: all selectors of depth <= {} over 4 tags (standard with keyword, repeating-group keyword, private, unknown) x item indices {{0,1,10,4294967295}}, printed by Display and in every alternative spelling (3 tag forms, keyword, omitted [0]). kw family: every table keyword as single step, as nested step with index and as leaf under a nested step. Also every near miss of a well-formed tag text (<= 2 length-preserving symbol substitutions, one insertion, one deletion, full alphabet). A case is one string; distinct by its bytes; non-trivial = the parser ran on it", full_max + 1, if wide_long { "the 10 symbols without '.','[',']',' '" } else { "the reduced alphabet {'7','c','g','(',')',',', U+00E9}" }, check.pick(3, 4)));
     check.assume("byte-level recognisers written from the documented syntax (header.rs doc of FromStr for Tag; ops.rs AttributeSelector syntax)");
     let kw_map: std::collections::HashMap<&str, (u16, u16)> = dict.entries.iter().map(|e| (e.alias.as_str(), e.tag)).collect();
     let kw = |s: &str| -> Option<(u16, u16)> { kw_map.get(s).copied() };
@@ -328,7 +381,8 @@ fn main() {
                 continue;
             }
             let shown = Tag(g, e).to_string();
-            if shown != tag_text(g, e, 0, 0) {
+            // the printed form must be one of the accepted forms (any hex case) denoting this tag
+            if recognise_tag(shown.as_bytes()) != Some((g, e)) {
                 l.fail(&case_id, json!({"family": "tag", "entry": "Display", "kind": "text"}), json!({"tag": [g, e], "display": shown}));
             }
             for form in 0..3u8 {
@@ -365,12 +419,13 @@ fn main() {
             for e in 0..=65535u16 {
                 let t = Tag(g, e);
                 let shown = t.to_string();
-                let ok = Tag::from_str(&shown) == Ok(t) && Tag::from_str(&shown[1..10]) == Ok(t) && {
+                let up = tag_text(g, e, 0, 0);
+                let ok = recognise_tag(shown.as_bytes()) == Some((g, e)) && Tag::from_str(&shown) == Ok(t) && Tag::from_str(&up) == Ok(t) && Tag::from_str(&up[1..10]) == Ok(t) && {
                     let mut b = [0u8; 8];
-                    b[..4].copy_from_slice(&shown.as_bytes()[1..5]);
-                    b[4..].copy_from_slice(&shown.as_bytes()[6..10]);
+                    b[..4].copy_from_slice(&up.as_bytes()[1..5]);
+                    b[4..].copy_from_slice(&up.as_bytes()[6..10]);
                     Tag::from_str(std::str::from_utf8(&b).unwrap()) == Ok(t)
-                } && shown.as_bytes() == tag_text(g, e, 0, 0).as_bytes();
+                };
                 if !ok {
                     bad += 1;
                     if bad <= 4 {
@@ -407,14 +462,35 @@ fn main() {
         } else if !check.replaying() {
             let fams = [
                 Fam { name: "full", syms: &SYMS, start: "", max: full_max, eval_min: 0, sel_max: sel_str_max, skip_first: None },
-                Fam { name: "paren11", syms: &SYMS, start: "(", max: if paren11 { 11 } else { 0 }, eval_min: full_max + 1, sel_max: 0, skip_first: None },
-                Fam { name: "reduced", syms: &SYMS_REDUCED, start: "", max: 11, eval_min: full_max + 1, sel_max: 0, skip_first: if paren11 && full_max >= 10 { Some(b'(') } else { None } },
+                Fam { name: "longer", syms: if wide_long { &SYMS_TAG10 } else { &SYMS_REDUCED }, start: "", max: 11, eval_min: full_max + 1, sel_max: 0, skip_first: None },
             ];
             for f in &fams {
                 if f.max > 0 {
                     run_family(&check, f, &kw);
                 }
             }
+            let edits = edit_family();
+            check.extra("edit_family_strings", json!(edits.len()));
+            check.par_range(edits.len() as u64, |l, i| {
+                let b = &edits[i as usize];
+                let mut c = Counts::default();
+                eval_tag_string(l, "edit", b, true, &mut c);
+                eval_sel_string(l, b, &kw, &mut c);
+                // parse_tag must agree with from_str on non-keywords
+                let st = std::str::from_utf8(b).unwrap();
+                let pt = guard(|| StandardDataDictionary.parse_tag(st).map(|t| (t.0, t.1)));
+                if pt != Ok(recognise_tag(b)) {
+                    c.fails += 1;
+                    l.fail(&format!("str/{}", vx_core::hex(b).replace(' ', "")), json!({"family": "str", "sub": "edit", "entry": "parse_tag", "kind": "mismatch", "byte_len": b.len()}), json!({"input": st, "expected": format!("{:?}", recognise_tag(b)), "got": format!("{pt:?}")}));
+                }
+                l.evals(3);
+                l.nontrivial_distinct_by_construction(3);
+                l.outcome_n("str/edit/valid-form", c.accepted);
+                l.outcome_n("str/edit/not-a-tag", c.n - c.accepted);
+                if c.fails > 0 {
+                    l.outcome_n("str/MISMATCH", c.fails);
+                }
+            });
         }
     }
 
